@@ -8,8 +8,13 @@
    own (identified by the section number) and nres[k] results (result <<k, j>>).
 
    Titles are names; what matters about a title is whether it can be a file
-   name -- TitleRec gives the facts the binding supplies for arbitrary strings:
-   [s : the string, slash : contains '/', nul : contains NUL].
+   name and whether the directory of its subsections can exist next to the
+   files of the report -- TitleRec gives the facts the binding supplies for
+   arbitrary strings:
+   [s : the string, slash : contains '/', nul : contains NUL,
+    aux : it is the name of a configuration file written at the top of the
+          report ("conf.py"),
+    stem : if the title ends in ".rst" what precedes the suffix, else ""].
 
    The page of a section is the chain of titles below the root (root: "index");
    sections with the same chain (repeated sibling titles) share one page.
@@ -32,7 +37,8 @@ CONSTANTS MaxNodes,      \* sections incl. the root: 1..MaxNodes
 
 Levels == 5              \* "depth up to the supported five levels"
 
-TitleRec(n) == [s |-> n, slash |-> n \in {"a/b", "/"}, nul |-> n = "NUL"]
+TitleRec(n) == [s |-> n, slash |-> n \in {"a/b", "/"}, nul |-> n = "NUL", aux |-> n = "conf.py",
+                stem |-> CASE n = "index.rst" -> "index" [] n = "A.rst" -> "A" [] OTHER -> ""]
 RootTitle == TitleRec("Root")
 
 VARIABLES tree,      \* [parent : Seq(Nat), title : Seq(TitleRec), nres : Seq(Nat)]
@@ -65,7 +71,13 @@ AllValid(t) == \A k \in Nodes(t) : k > 1 => ValidTitle(t.title[k])
 TooDeep(t) == Height(t) > Levels
 (* a section other than the root whose page is the root's page *)
 RootClash(t) == \E k \in Nodes(t) : k > 1 /\ Path(t, k) = <<"index">>
-Acceptable(t) == AllValid(t) /\ ~TooDeep(t) /\ ~RootClash(t)
+(* a section with subsections needs a directory named by its title; that name may already be a
+   file of the report: the configuration file, or the page file "<stem>.rst" of another section *)
+DirFileClash(t) ==
+   \E k \in Nodes(t) : k > 1 /\ (\E c \in Nodes(t) : c > 1 /\ t.parent[c] = k) /\
+      \/ t.parent[k] = 1 /\ t.title[k].aux
+      \/ t.title[k].stem # "" /\ \E k1 \in Nodes(t) : Path(t, k1) = SubSeq(Path(t, k), 1, Len(Path(t, k)) - 1) \o <<t.title[k].stem>>
+Acceptable(t) == AllValid(t) /\ ~TooDeep(t) /\ ~RootClash(t) /\ ~DirFileClash(t)
 
 (* where a table-of-contents entry of the page with path p leads: entries are relative to the
    directory of the page (Sphinx), an entry is the last two titles of the child *)
@@ -124,7 +136,7 @@ P_Toc(t, d) == ~d.rejected => \A pg \in d.pages : \A i \in DOMAIN pg.toc : Resol
 (* (6) every referenced figure exists *)
 P_Images(t, d) == ~d.rejected => \A pg \in d.pages : Range(pg.images) \subseteq d.figs
 (* a tree in which every section has a usable title and a page of its own is written *)
-Clash(t) == \E k1, k2 \in Nodes(t) : k1 # k2 /\ Path(t, k1) = Path(t, k2)
+Clash(t) == DirFileClash(t) \/ \E k1, k2 \in Nodes(t) : k1 # k2 /\ Path(t, k1) = Path(t, k2)
 P_Written(t, d) == (AllValid(t) /\ ~TooDeep(t) /\ ~Clash(t)) => ~d.rejected
 (* the root page is among the pages *)
 P_Root(t, d) == (AllValid(t) /\ ~TooDeep(t) /\ ~d.rejected) => <<"index">> \in PagePaths(d)
@@ -193,4 +205,5 @@ W_RootClash      == ~(phase = "rejected" /\ AllValid(tree) /\ ~TooDeep(tree))
 W_TooDeep        == ~(phase = "rejected" /\ AllValid(tree) /\ TooDeep(tree))
 W_DeepToc        == ~(phase = "done" /\ \E pg \in Range(pages) : Len(pg.path) >= 2 /\ pg.toc # <<>>)
 W_NestedIndex    == ~(phase = "done" /\ <<"A", "index">> \in Paths(tree))
+W_DirFileClash   == ~(phase = "rejected" /\ AllValid(tree) /\ ~TooDeep(tree) /\ ~RootClash(tree))
 =============================================================================
